@@ -6,7 +6,9 @@
    import-set types are arbitrary: nothing below depends on what the formatter prints. *)
 From Coq Require Import NArith List Bool String.
 From Verif Require Import Base.Chars Base.StrX Text.FilePos Text.FileText Text.Split
-                          S2S.Blocks S2S.Insert S2S.BlocksProofs S2S.InsertProofs.
+                          S2S.Blocks S2S.Insert S2S.BlocksProofs S2S.InsertProofs
+                          Imports.Import Imports.ImportSet Imports.Format Imports.ImportLex
+                          Imports.ImportSetProofs Imports.RoundTripProofs S2S.Closed S2S.ClosedProofs.
 Import ListNotations.
 
 (* reformat_import_statements(PythonBlock): everything outside the maximal runs of top-level import
@@ -77,6 +79,27 @@ Print Assumptions C01_str_input_partial.
 Theorem C01_str_input_refuted : exists s, from_source_str s <> s.
 Proof. exists (dec "x=1"%string). vm_compute. discriminate. Qed.
 Print Assumptions C01_str_input_refuted.
+
+(* ===== C03 closed: the fixed-point clause of C03 for the reformat tool, in closed form =====
+   (same statements as Properties/C03closed.v, repeated here so that this check's audit covers them;
+   the hypotheses sets_okb and oracle_compositionalb are evaluated by harness/c01.py on every closed
+   pass, the second pass's node list being CPython's for the first pass's real output) *)
+Theorem C01_C03_reprint_shadow : forall P S out S',
+  wf_set S -> sorted_set S -> print_set P S = Some out -> parse_imports out = Some S' ->
+  print_set P (from_imports true S') = Some out.
+Proof. exact reprint_shadow. Qed.
+Print Assumptions C01_C03_reprint_shadow.
+
+Theorem C01_C03_reformat_idempotent_closed : forall P ns1 t1 ps1 xs ns2 ps2,
+  statements ns1 t1 = Some ps1 ->
+  sets_okb (preprocess mk_cset ps1) = true ->
+  pretty_closed P (preprocess mk_cset ps1) = Some xs ->
+  statements ns2 (of_str (List.concat xs) (mkPos 1 1)) = Some ps2 ->
+  oracle_compositionalb (preprocess mk_cset ps1) xs (preprocess mk_cset ps2) = true ->
+  reformat_closed P ns1 t1 = Some (List.concat xs) /\
+  reformat_closed P ns2 (of_str (List.concat xs) (mkPos 1 1)) = Some (List.concat xs).
+Proof. exact reformat_idempotent_closed_b. Qed.
+Print Assumptions C01_C03_reformat_idempotent_closed.
 
 (* non-vacuity: concrete runs through statements / preprocess / pretty / insert *)
 Definition ex_R : N -> str := fun _ => dec "IMPORTS$a;"%string.
